@@ -1348,9 +1348,27 @@ class Engine:
             if isinstance(value, ast.Dict) and t.kind == "dict":
                 value._dict_t = t
 
+    def hint_from_field(self, target, value, st, fr):
+        if isinstance(target, ast.Attribute) and isinstance(value, (ast.List, ast.Dict)) \
+                and not (value.elts if isinstance(value, ast.List) else value.keys):
+            try:
+                base = self.ev(target.value, st.copy(), fr)
+            except CheckerError:
+                return
+            if base.t.kind == "ref":
+                try:
+                    _o, t, _i = self.fld_key(base.t.args[0], target.attr)
+                except CheckerError:
+                    return
+                if t.kind == "list" and isinstance(value, ast.List):
+                    value._elem_t = t.args[0]
+                if t.kind == "dict" and isinstance(value, ast.Dict):
+                    value._dict_t = t
+
     def ex_Assign(self, s, st, fr):
         for tg in s.targets:
             self.hint_literal(tg, s.value, fr)
+            self.hint_from_field(tg, s.value, st, fr)
         val = self.ev(s.value, st, fr)
         for tg in s.targets:
             self.assign(tg, val, st, fr)
